@@ -504,6 +504,12 @@ def build_inputs(base, rnd, tier):
                                  "struct Empty {};\nstruct E2 : Empty { int i; };\nstruct E3 : Empty, E2 {};\n"
                                  "struct VB : virtual Base { int q; };\nstruct P1 { double d; char c; };\nstruct P2 : P1 { char c2; };\n"
                                  "struct __attribute__((packed)) PK : P1 { char z; };\nunion UU { Derived d; char raw[3]; };\n")
+    # headers clang rejects only through warnings that are errors by default (narrowing in a braced initialiser,
+    # `register` in C++17, ...): rejected is rejected, whatever diagnostic group says so
+    for k, text in enumerate(["const int narrow_k{2.5};\n", "struct N { int a; char c; };\nconst N n{1.5, 300};\n",
+                              "const unsigned char uc{300};\n", "enum E : char { Big = 1000 };\n",
+                              "int f(void) { return 0; }\nconst int z = f();\nconstexpr int cz = f();\n"]):
+        fams["default-error-%d" % k] = ("c++", text)
     optsets = [[], ["--explicit-padding"], ["--with-derive-default", "--with-derive-hash", "--with-derive-partialeq", "--impl-debug", "--impl-partialeq"],
                ["--enable-cxx-namespaces", "--no-layout-tests", "--explicit-padding"], ["--disable-untagged-union", "--explicit-padding"],
                ["--rust-target", "1.64", "--use-core"]]
